@@ -421,14 +421,16 @@ func (rp *replayer) tryCandidate(roots []*xnode, wnames []string, n int) {
 	body.WriteString("\tt.Log(\"REPLAY-PASS: the real code satisfies the contract on this input\")\n")
 
 	var src strings.Builder
-	src.WriteString("package " + pkg.Name() + "\n\n// generated by govc: replay of obligation " + rp.f.o.Name + "\n\nimport (\n\t\"testing\"\n")
+	src.WriteString("package " + pkg.Name() + "\n\n// generated by govc: replay of obligation " + rp.f.o.Name + "\n\nimport (\n\t\"math/big\"\n\t\"testing\"\n")
+	delete(rend.imports, "math/big")
+	delete(rend.imports, "testing")
 	var imps []string
 	for p, nm := range rend.imports {
 		imps = append(imps, fmt.Sprintf("\t%s %q\n", nm, p))
 	}
 	sort.Strings(imps)
 	src.WriteString(strings.Join(imps, "") + ")\n\n")
-	src.WriteString("func govcEDiv(a, b int) int { q := a / b; if a%b < 0 { if b > 0 { q-- } else { q++ } }; return q }\nfunc govcEMod(a, b int) int { return a - b*govcEDiv(a, b) }\nvar _, _ = govcEDiv, govcEMod\n\n")
+	src.WriteString(goHelpers + "\n")
 	src.WriteString("func TestGovcReplay(t *testing.T) {\n" + body.String() + "}\n")
 	testFile := fmt.Sprintf("%s.replay%d_test.go.txt", rp.base, n)
 	os.WriteFile(testFile, []byte(src.String()), 0o644)
